@@ -39,6 +39,11 @@ func cmdRace(args []string) {
 		"matches(string(//b), '^[0-9]+$')", "replace(string(//c), '(x)', '$1$1')", "matches(//c, 'x|y')",
 		"//b[position() = last()]", "//*[count(ancestor::*) > 1]", "//c[. = 'x' or . = '3']", "1 + count(//b) * 2",
 		"substring(string(//d), 2, 1)", "lower-case(string(//d))", "boolean(//zz) or //b",
+		"starts-with(//c, 'x')", "ends-with(//c, 'x')", "substring-before(//d, '1')", "substring-after(//d, '1')",
+		"string-length(//d)", "normalize-space(//d)", "translate(//c, 'x', 'y')", "floor(//b)", "ceiling(//b)", "round(//b) = 1",
+		"number(//b) + 1", "not(//zz)", "local-name(//b)", "namespace-uri(//b)", "//b[last()]", "//*[position() = 2]",
+		"//a/b[2]", "//e/*[last()]/text()", "count(//b | //c)", "//b[c][1]", "(//b | //c)[2]", "concat(//b, '-', //c, '-', //d)",
+		"//*[@a and (b or c)]", "//b[. = //e/b]", "sum(//e/*) div count(//e/*)", "string(//e/c) = '3'",
 	}
 	type mism struct {
 		Expr string `json:"expr"`
